@@ -184,6 +184,11 @@ def c01(run, replay=None):
                           desc=dict(truthiness="assert", literal=L)))
         cases.append(dict(files={"main.rh": dict(tasks=pre + [task(('debug', lit("<<it>>")), loop=[lit('x'), lit('y')], when=('var', ['v']))])},
                           desc=dict(truthiness="when in loop", literal=L)))
+    # conditions written as YAML numbers / lists of mixed literals (K37: `when: 0` used to be dropped)
+    for wi, (raw, val) in enumerate([("0", False), ("1", True), ("0.0", False), ("2.5", True), ("[1, \"false\"]", False), ("[1, true, \"true\"]", True), ("[0]", False), ("-1", True)]):
+        t = task(('command', 'kr%d' % wi, '', 0), when=('bool', val))
+        t["when_raw"] = raw
+        cases.append(dict(files={"main.rh": dict(tasks=[INIT, t, task(('debug', lit(S(9))))])}, desc=dict(truthiness="literal when", literal=raw)))
     j = judge(run, cases, "order/once/stop")
     finish_cov(run, j,
                "random skeletons of 2-5 tasks over debug / looped debug / when / set_vars / command+register / copy / assert / include / vars / changed_when, "
